@@ -54,6 +54,10 @@ class DuctRecorder:
         self.tscale = 4096.0     # K, for temperature differences
         self._saved = []
         self.clipped = 0
+        self._own_htc = {}
+        # recorded sweeps: bypass film coefficients re-evaluated per region
+        # (generated states set them directly and switch this off)
+        self.use_own_htc = False
 
     def qf(self, x):
         v = q(float(x), self.scale)
@@ -75,6 +79,10 @@ class DuctRecorder:
             h_int = np.array(self.coolant_int_params['htc'], copy=True)
             h_byp = (np.array(self.coolant_byp_params['htc'], copy=True)
                      if self.n_bypass > 0 else None)
+            if h_byp is not None and rec.use_own_htc:
+                own = rec.own_bypass_htc(self)
+                if own is not None:
+                    h_byp = own
             try:
                 return o_rr(self, p_duct, t_gap, htc_gap, adiabatic)
             finally:
@@ -98,6 +106,27 @@ class DuctRecorder:
         SN._calc_duct_temp = sn_calc
         self._saved = [(RR, o_rr), (SN, o_sn)]
         return self
+
+    def own_bypass_htc(self, reg):
+        """Film coefficients of the bypass gaps of this region evaluated
+        afresh, on a private copy, from its own bypass flow (constant-property
+        coolant only, where they do not depend on the history): what the duct
+        solve must use, whatever parameter record it reads."""
+        key = id(reg)
+        if key not in self._own_htc:
+            val = None
+            try:
+                if drive.is_const_material(reg.coolant) and \
+                        np.sum(reg.byp_flow_rate) > 0:
+                    import copy
+                    c = copy.deepcopy(reg)
+                    c._update_coolant_byp_params(
+                        [float(np.mean(t)) for t in c.temp['coolant_byp']])
+                    val = np.array(c.coolant_byp_params['htc'], copy=True)
+            except BaseException:
+                val = None
+            self._own_htc[key] = val
+        return self._own_htc[key]
 
     # whether the outer boundary is adiabatic: from the input (set by the
     # driver of a recorded sweep) if known, else the flag the routine was given
